@@ -850,7 +850,10 @@ def run(P, rep, tier):
     cg = wrap(CG(P))
     rep.explanation = ('Address/width/mask arithmetic of every lvalue form, decided as formulas: the code generator is abstractly interpreted on abstract nodes whose layout fields '
                        '(offset, bit_width, bit_offset) are symbols; the emitted templates are evaluated by the term-level machine and the resulting loads, stores, shift counts '
-                       'and masks are compared with the formulas C11/psABI prescribe. Member lookup is decided by interpretation of get_struct_member.')
+                       'and masks are compared with the formulas C11/psABI prescribe. Member lookup is decided by interpretation of get_struct_member. '
+                       'R04.17 decides by an origin analysis over the typed AST of parse.c (flow-insensitive, calls substituted, parameters resolved at the call sites) that the hidden frame '
+                       'object a lowering attaches to a tree is never one taken from persistent parser state, so that two live sites never share bytes; it does not decide liveness itself. '
+                       'R04.6 and R04.18 re-issue the clauses of C03 R03.10 (single evaluation of the op= lvalue) and C08 R08.4 (_Alignas reaches the object).')
     rep.assumptions += ['gen_addr of a child leaves its address in %rax (contract, proved per kind by R04.4)', 'host arithmetic on layout fields is tracked as 64-bit unless the C type of the expression is narrower']
     r_load_store(cg, rep)
     r_aggregate_value(cg, rep)
